@@ -56,7 +56,8 @@ StrsX == << St("1e5"), St("+5"), St("b"), St("ab"), St("bc"), St("1970-01-01T00:
             St("1.5e3"), St("1e999"), St("-0"), St(" 1"), St("1 "), St("1_000"), St("0x10"), St("1.50"),
             St("79228162514264337593543950335"), St("79228162514264337593543950336"),
             St("0.12345678901234567890123456789"), St("abc"), VStr(<<8203, 97, 8203>>), St("e5"), St("1e"),
-            St("--1"), St("+"), St("."), St("1.2.3"), St("Abc"), St("aBC dEF") >>
+            St("--1"), St("+"), St("."), St("1.2.3"), St("Abc"), St("aBC dEF"),
+            VStr(<<255, 181, 224, 215, 247, 192, 222, 170>>) >>
 
 DTMid == VDT(Instant(2015, 7, 30, 3, 26, 13, Dg(<<1,2,3,4,5,6,7,8,9>>)))
 DTsQ == << VDT(ZZero), DTMid, VDT(ZFromInt(-500000000)), VDT(Instant(2000, 2, 29, 23, 59, 59, ZZero)),
